@@ -5,7 +5,7 @@ set -u
 dir=$1; prop=$2; tier=${3:-quick}
 cd /verif
 if ! git -C /repo diff --quiet; then echo "refusing: /repo has uncommitted changes"; exit 2; fi
-git -C /repo apply "$dir/patch.diff" || { echo "patch does not apply"; exit 2; }
+git -C /repo apply "$dir/patch.diff" 2>/dev/null || (cd /repo && patch -p1 -F3 -s --no-backup-if-mismatch < "$dir/patch.diff") || { echo "patch does not apply"; git -C /repo checkout -- .; exit 2; }
 trap 'git -C /repo checkout -- . ; git -C /repo status --short | grep -v "^??" ' EXIT
 timeout 1800 ./verif check "$prop" --tier "$tier" 2>&1 | tail -12
 echo "exit=${PIPESTATUS[0]}"
